@@ -114,7 +114,11 @@ func (s *state) walk(node ast.Node) {
 	case *ast.TemplateNode:
 		s.visitTemplate(node)
 	case *ast.ListNode:
+		// the body of a block (template, if/elseif/else branch, switch case, loop
+		// body, ifempty, let/param/log content): names bound in it end with it
+		s.scope.push()
 		s.visitChildren(node)
+		s.scope.pop()
 
 		// Output nodes ----------
 	case *ast.RawTextNode:
